@@ -28,6 +28,7 @@ SCRIPTS = {
               role='server', server_side=True),
     'd': dict(events=[['creq', 3, 'wl_callback'], ['use', 3], ['del', 3], ['creq', 3, 'wl_callback'], ['use', 3]], role='unknown'),
     'e': dict(events=[['get_registry'], ['bind', 5, 'zz_f'], ['cev', S, 'zz_a'], ['cev', S, 'wl_callback'], ['ment', S]], role='client'),
+    'q': dict(events=[['get_registry'], ['quote', '12'], ['creq', 3, 'wl_callback'], ['quote', '1'], ['del', 3]], role='client'),
     'b3': dict(events=[['get_registry'], ['creq', 3, 'wl_callback'], ['del', 3]], role='client'),
     'd3': dict(events=[['creq', 3, 'wl_callback'], ['del', 3], ['creq', 3, 'wl_callback']], role='unknown'),
     'f3': dict(events=[['get_registry'], ['bind', 3, 'zz_b'], ['use', 3]], role='server', server_side=True),
@@ -37,7 +38,7 @@ SCRIPTS = {
                role='server', server_side=True),
 }
 
-TUPLES_QUICK = [('a', 'b'), ('a', 'c'), ('b', 'd'), ('e', 'a'), ('b3', 'd3', 'f3'), ('b3', 'b3', 'b3')]
+TUPLES_QUICK = [('a', 'b'), ('a', 'c'), ('b', 'd'), ('e', 'a'), ('b3', 'd3', 'f3'), ('b3', 'b3', 'b3'), ('q', 'b')]
 TUPLES_THOROUGH = TUPLES_QUICK + [('c', 'd'), ('e', 'c'), ('b', 'b'), ('d', 'd'), ('a4', 'c4', 'g2'), ('c4', 'a4', 'b3'),
                                   ('a', 'b', 'd3'), ('c', 'e', 'b3'), ('d', 'b', 'g2'), ('a4', 'c4', 'a4'),
                                   ('b3', 'd3', 'f3', 'g2')]
@@ -50,6 +51,9 @@ def gen_ilv(tier):
         lens = [len(SCRIPTS[k]['events']) for k in tup]
         for order in explore.interleavings(lens):
             yield {'scripts': list(tup), 'order': list(order)}
+            if len(tup) == 2 and tup[0] in ('b', 'a'):
+                # every line of the whole input carries the same timestamp (lifespans 0, destruction at relative time 0)
+                yield {'scripts': list(tup), 'order': list(order), 'equal_times': True}
 
 
 def render_ilv(case, only=None):
@@ -63,7 +67,8 @@ def render_ilv(case, only=None):
         sc = SCRIPTS[case['scripts'][ci]]
         ev = sc['events'][pos[ci]]
         pos[ci] += 1
-        msg, exp = ot.build(ev, refs[ci], T0 + n * 100, server_side=sc.get('server_side', False), conn=TAGS[ci])
+        msg, exp = ot.build(ev, refs[ci], T0 if case.get('equal_times') else T0 + n * 100,
+                            server_side=sc.get('server_side', False), conn=TAGS[ci])
         if only is None or only == ci:
             out.append((ci, wlprint.render(msg, 'cur'), exp))
     return out, refs
@@ -278,6 +283,13 @@ def run_sink(hist, check_from=0):
         if got != want:
             V.append(Violation('sink.listing', case, {'expected': want, 'observed': got}))
         else:
+            # names are unambiguous: `X:` selects exactly the messages of the connection called X
+            for i in reg.instances:
+                mark = len(out.buffer)
+                ctl.process_command('list %s:' % i['name'])
+                n_listed = sum(1 for l in sut._lines(out.buffer[mark:]) if outparse.classify(l)[0] == 'message')
+                if n_listed != i['ref'].nmsg:
+                    V.append(Violation('sink.name_matcher', case, {'name': i['name'], 'expected_messages': i['ref'].nmsg, 'listed': n_listed}))
             for c, i in zip(conns, reg.instances):
                 sub = []
                 hc.check_state(c, i['ref'], case, sub)
